@@ -16,7 +16,7 @@ TECHNIQUE = "Coq proof (field/lra/vm_compute) + Coq-Interval certified correspon
 
 HEADER = ("From Coq Require Import Reals List ZArith.\nFrom Interval Require Import Tactic.\n"
           "From TFV Require Import Base.RBase Base.Tie Shape.LineShapes.\nImport ListNotations.\nOpen Scope R_scope.\n")
-UNF = ("rmax BW BWR BWR2 BWR_normal_above BWR_coupling bw_xy Gamma Gamma2 Bprime Bprime_q2 bp_ratio bp polyval bprime_table "
+UNF = ("rmax BWR_LS BWR_LS_den ls_widths ls_barrier gamma_factors gamma_factors_from sumsq combine nth fold_right BW BWR BWR2 BWR_normal_above BWR_coupling bw_xy Gamma Gamma2 Bprime Bprime_q2 bp_ratio bp polyval bprime_table "
        "Cscal Csqrt_real Cmul Cadd Cinv fst snd fold_left map Nat.mul Nat.add get_relative_p get_relative_p2 "
        "Flatte flatte_rho flatte_p shape_one shape_x shape_exp shape_exp_com GS GS_from dFun fsFun hFun dh_dsFun twoBodyCMmom gs_pi")
 TAC = tac(UNF)
@@ -258,6 +258,71 @@ def particle_cases(ctx, rnd, n_per_model):
     return cases
 
 
+def bwr_ls_cases(ctx, rnd, n):
+    """BWR_LS (LS-split running width) with 1..3 couplings: R_i(m) for every coupling, documented form (fix_bug1=True) in the
+    regular stream; the default (fix_bug1=False) carries m/m0 instead of the documented m0/m: open finding F6, one fixed reproducer.
+    Also GS_rho with configured (non-default) daughter masses."""
+    import tensorflow as tf
+    import ampkit
+    from tf_pwa.config_loader import ConfigLoader
+    from tf_pwa.amp.core import get_relative_p2 as grp2
+    cases = []
+    spin_sets = [  # (J^P of R, spins of its daughters B, C) -> number of ls couplings
+        ((1, -1), {"B": (0, -1), "C": (0, -1)}),          # 1 coupling
+        ((1, 1), {"B": (1, -1), "C": (0, -1)}),           # 2 couplings
+        ((1, 1), {"B": (1, -1), "C": (1, -1)}),           # 3 couplings
+        ((2, 1), {"B": (1, -1), "C": (1, -1)}),           # more
+    ]
+    for k in range(n):
+        (JR, PR), fb = spin_sets[k % len(spin_sets)]
+        fix = (k % 5 != 4)
+        mf = {"B": rnd.uniform(0.1, 0.3), "C": rnd.uniform(0.1, 0.3), "D": rnd.uniform(0.1, 0.2)}
+        M0 = 2.2
+        m0 = rnd.uniform(mf["B"] + mf["C"] + 0.2, 1.6); g0 = rnd.uniform(0.03, 0.3)
+        res = {"R_BC": {"pair": "R_BC", "J": JR, "P": PR, "mass": m0, "width": g0, "model": "BWR_LS", "fix_bug1": fix}}
+        fin = {"B": fb["B"], "C": fb["C"], "D": (0, -1)}
+        cfg = ampkit.three_body_config(M0, mf, res, top=(1, -1), fin=fin, decay_opts={"R_BC": {"p_break": True}})
+        config = ConfigLoader(cfg)
+        amp = config.get_amplitude()
+        part = [p for p in amp.decay_group.resonances if str(p) == "R_BC"][0]
+        th = {kk: rnd.uniform(0.2, 1.3) for kk in amp.get_params() if "theta" in kk}
+        amp.set_params(th)
+        ls = [int(l) for l, _ in part.decay[0].get_ls_list()]
+        thetas = [float(t()) for t in part.theta]
+        m = rnd.uniform(mf["B"] + mf["C"] + 0.05, 2.0)
+        vals = [c1(v) for v in part(T(m))]
+        q2 = f1(grp2(T(m), T(mf["B"]), T(mf["C"]))); q02 = f1(grp2(T(m0), T(mf["B"]), T(mf["C"])))
+        ctx.count("BWR_LS:n_ls=%d:%s" % (len(ls), "doc" if fix else "default"))
+        for i, v in enumerate(vals):
+            expr = "BWR_LS true %s %s %s %s %s [%s]%%nat [%s] %s %d" % (Rq(m), Rq(m0), Rq(g0), Rq(q2), Rq(q02), "; ".join(map(str, ls)), "; ".join(Rq(t) for t in thetas), Rq(3.0), i)
+            meta = {"function": "Particle(model=BWR_LS).__call__", "args": {"m": m, "m0": m0, "g0": g0, "ls": ls, "thetas": thetas, "coupling": i, "fix_bug1": fix, "spins": str(fin)}, "impl": str(v)}
+            if not fix:
+                if i == 0 and len(ls) == 1 and not any(c[3].get("known") for c in cases):
+                    meta["known"] = "F6"
+                else:
+                    continue
+            cases.append(("ls_%d_%d" % (k, i), cplx_stmt(expr, v, rtol=1e-9), TAC, meta))
+    # GS_rho with configured daughter masses (documented options c_daug2Mass / c_daug3Mass)
+    import tf_pwa.breit_wigner as bw
+    from tf_pwa.utils import create_test_config
+    from tf_pwa.amp.core import get_relative_p as grp
+    for k in range(max(2, n // 3)):
+        ma, mb = rnd.uniform(0.15, 0.25), rnd.uniform(0.15, 0.25)
+        m0 = rnd.uniform(0.6, 0.85); g0 = rnd.uniform(0.05, 0.2)
+        config = create_test_config("GS_rho", {"J": 1, "P": -1, "mass": m0, "width": g0, "c_daug2Mass": ma, "c_daug3Mass": mb}, {})
+        part = [p for p in config.get_amplitude().decay_group.resonances if str(p) == "R_BC"][0]
+        m1 = float(part.decay[0].outs[0].get_mass()); m2 = float(part.decay[0].outs[1].get_mass())
+        m = rnd.uniform(ma + mb + 0.05, 0.89)
+        v = c1(part(T(m)))
+        q = f1(grp(T(m), T(m1), T(m2))); q0 = f1(grp(T(m0), T(m1), T(m2)))
+        dF = f1(bw.dFun(T(m0 * m0), T(ma), T(mb))); fs = f1(bw.fsFun(T(m * m), T(m0 * m0), T(g0), T(ma), T(mb)))
+        gam = f1(bw.Gamma(T(m), T(g0), T(q), T(q0), 1, T(m0), T(3.0)))
+        ctx.count("GS_rho:custom_daughter_masses")
+        cases.append(("gsc_%d" % k, cplx_stmt("GS_from %s %s %s %s %s %s" % (Rq(m), Rq(m0), Rq(g0), Rq(dF), Rq(fs), Rq(gam)), v, rtol=1e-8), TAC,
+                      {"function": "Particle(model=GS_rho, c_daug2Mass, c_daug3Mass).__call__", "args": {"m": m, "m0": m0, "g0": g0, "c_daug2Mass": ma, "c_daug3Mass": mb}, "impl": str(v)}))
+    return cases
+
+
 def sympy_dom_cases(ctx, rnd, n):
     """Particle.get_sympy_dom: numeric line shape x symbolic denominator = 1 (on the implementation,
     certified product bound in Coq: |R*dom - 1| small given both values)"""
@@ -297,6 +362,7 @@ def run(ctx):
     cases += particle_cases(ctx, rnd, 3 if ctx.tier == "quick" else 20)
     ctx.log("particle cases", len(cases))
     cases += sympy_dom_cases(ctx, rnd, 2 if ctx.tier == "quick" else 10)
+    cases += bwr_ls_cases(ctx, rnd, 10 if ctx.tier == "quick" else 60)
     ctx.log("sympy cases", len(cases))
     ctx.evaluations += len(cases)
     for c in cases:
@@ -308,13 +374,17 @@ def run(ctx):
     for cid, stmt, t, meta in cases:
         if res[cid] != "OK":
             fn = meta["function"]
+            if meta.get("known") == "F6":
+                ctx.fail("line_shape", cid, "BWR_LS default (fix_bug1=False) uses m/m0 where the documented rho/rho0 gives m0/m", inp=meta,
+                         site="tf_pwa/amp/split_ls.py ParticleBWRLS default running width", fingerprint="F6", failing_input=meta)
+                continue
             rv = ref_value(fn, meta["args"]) if isinstance(meta["args"], list) else None
             fi = dict(meta, documented_value=str(rv) if rv is not None else "see model coq/Shape/LineShapes.v", coq_result=res[cid])
             ctx.fail("line_shape", cid, "implementation value not within tolerance of the documented formula (%s)" % res[cid],
                      inp=meta, site=fn, fingerprint=fn, failing_input=fi)
     return common.finish(ctx, technique=TECHNIQUE, extra_assumptions=[
         "real-number model; float rounding absorbed by rtol 1e-11 (1e-8..1e-9 where the code goes through tf complex sqrt)",
-        "models not covered: Kmatrix, LASS, FlatteGen, interpolation/spline particles, BWR_LS family (see DESIGN.md C15)"])
+        "models not covered: Kmatrix, LASS, FlatteGen, interpolation/spline particles, BWR_LS2 / MultiBWR (see DESIGN.md C15)"])
 
 
 def replay(rep):
